@@ -811,13 +811,13 @@ class Server():
 
             if responder.ended:
                 requestant = self.reqs[ca]
-                if requestant.persisted:
-                    if requestant.parser is None:  # reuse
+                if requestant.parser is None:  # request just answered not next one in progress
+                    if requestant.persisted:  # reuse
                         requestant.makeParser()  # resets requestant parser
-                else:  # not persistent so close and remove requestant and responder
-                    ix = self.servant.ixes[ca]
-                    if not ix.txbs:  # wait for outgoing txbs to be empty
-                        self.closeConnection(ca)
+                    else:  # not persistent so close and remove requestant and responder
+                        ix = self.servant.ixes[ca]
+                        if not ix.txbs:  # wait for outgoing txbs to be empty
+                            self.closeConnection(ca)
 
     def service(self):
         """
